@@ -23,25 +23,54 @@ Proof. induction l as [|x t IH]; cbn; [discriminate|]. destruct (cur_eqb c x) eq
   - intros H. inversion H; subst. destruct c as [m|]; cbn in E; [|discriminate]. apply Nat.eqb_eq in E. subst. split; [reflexivity|now left].
   - intros H. destruct (IH H) as [-> Hi]. split; [reflexivity|now right]. Qed.
 
+Lemma existsb_off_seq b a : existsb (cur_eqb (Off b)) (seq 0 (S a)) = false -> a < b.
+Proof. intros H. destruct (Nat.lt_ge_cases a b) as [Hl|Hg]; [exact Hl|].
+  assert (T : existsb (cur_eqb (Off b)) (seq 0 (S a)) = true).
+  { apply existsb_exists. exists b. split; [apply in_seq; lia|]. cbn. apply Nat.eqb_refl. }
+  rewrite T in H. discriminate. Qed.
+
+Lemma ltb_0 x : Nat.ltb x 0 = false.
+Proof. destruct x; reflexivity. Qed.
+
+(* whatever after / before / first / last are given: the page is a contiguous run of the list, every element of it
+   lies strictly after the "after" cursor and strictly before the "before" cursor - also when "before" is at or
+   ahead of "after" (the window is then empty, and so is the page) *)
 Theorem page_window n i p : paginate n i = Ok p ->
-  exists lo len, p_items p = seq lo len /\ lo + len <= n /\
-    (forall a, i_after i = Some (Off a) -> a < n -> a < lo) /\
-    (forall a b, i_after i = Some (Off a) \/ i_after i = None -> i_before i = Some (Off b) -> b < n ->
-                 (match i_after i with Some (Off a') => a' < b | _ => True end) -> lo + len <= b).
+  (exists lo len, p_items p = seq lo len /\ lo + len <= n) /\
+  (forall a x, i_after i = Some (Off a) -> a < n -> In x (p_items p) -> a < x) /\
+  (forall b x, i_before i = Some (Off b) -> b < n -> In x (p_items p) -> x < b).
 Proof. unfold paginate. cbv zeta. intros H.
+  destruct (empty_window n i) eqn:EW.
+  { (* the empty window: nothing is returned *)
+    assert (Hitems : p_items p = []).
+    { destruct (match i_after i with Some c => match find_after c (seq 0 n) with Some o => _ | None => _ end | None => _ end) as [src0 hp].
+      assert (E1 : (match i_before i with Some c => take_until c [] | None => ([], false) end) = (@nil nat, false)) by (destruct (i_before i); reflexivity).
+      rewrite E1 in H. clear E1.
+      destruct (i_first i) as [f|].
+      - destruct (f <? 0)%Z; [discriminate|]. cbn [length] in H. rewrite ltb_0 in H.
+        destruct (i_last i) as [l|].
+        + destruct (l <? 0)%Z; [discriminate|]. cbn [length] in H. rewrite ltb_0 in H. inversion H. reflexivity.
+        + inversion H. reflexivity.
+      - destruct (i_last i) as [l|].
+        + destruct (l <? 0)%Z; [discriminate|]. cbn [length] in H. rewrite ltb_0 in H. inversion H. reflexivity.
+        + inversion H. reflexivity. }
+    rewrite Hitems. split; [exists 0, 0; split; [reflexivity|lia]|]. split; intros ? ? _ _ [].
+  }
   (* the source after "after" *)
   assert (S1 : exists o1, (match i_after i with
                            | Some c => match find_after c (seq 0 n) with Some o => (skipn (S o) (seq 0 n), true) | None => (seq 0 n, false) end
                            | None => (seq 0 n, false) end) = (seq o1 (n - o1), match i_after i with Some c => match find_after c (seq 0 n) with Some _ => true | None => false end | None => false end)
-                    /\ o1 <= n /\ (forall a, i_after i = Some (Off a) -> a < n -> o1 = S a) /\ (i_after i = None -> o1 = 0)).
+                    /\ o1 <= n /\ (forall a, i_after i = Some (Off a) -> a < n -> o1 = S a) /\
+                    (o1 = 0 \/ exists a, i_after i = Some (Off a) /\ a < n /\ o1 = S a)).
   { destruct (i_after i) as [c|].
     - destruct (find_after c (seq 0 n)) as [o|] eqn:F.
       + destruct (find_after_some _ _ _ F) as [-> Hi]. apply in_seq in Hi. exists (S o). rewrite skipn_seq. cbn [Nat.add].
-        split; [reflexivity|]. split; [lia|]. split; [intros a E _; inversion E; reflexivity|discriminate].
-      + exists 0. rewrite Nat.sub_0_r. split; [reflexivity|]. split; [lia|]. split; [|discriminate].
+        split; [reflexivity|]. split; [lia|]. split; [intros a E _; inversion E; reflexivity|].
+        right. exists o. split; [reflexivity|]. split; [lia|reflexivity].
+      + exists 0. rewrite Nat.sub_0_r. split; [reflexivity|]. split; [lia|]. split; [|left; reflexivity].
         intros a E Ha. inversion E; subst. rewrite find_after_seq in F by lia. discriminate.
-    - exists 0. rewrite Nat.sub_0_r. split; [reflexivity|]. split; [lia|]. split; [discriminate|reflexivity]. }
-  destruct S1 as (o1 & ES1 & Ho1 & Hafter & Hnone). rewrite ES1 in H. clear ES1.
+    - exists 0. rewrite Nat.sub_0_r. split; [reflexivity|]. split; [lia|]. split; [discriminate|left; reflexivity]. }
+  destruct S1 as (o1 & ES1 & Ho1 & Hafter & Hcase). rewrite ES1 in H. clear ES1.
   set (hp := match i_after i with Some c => _ | None => false end) in *. clearbody hp.
   destruct (match i_before i with Some c => take_until c (seq o1 (n - o1)) | None => (seq o1 (n - o1), false) end) as [e1 hn] eqn:E1.
   assert (S2 : exists k, k <= n - o1 /\ e1 = seq o1 k /\ (forall b, i_before i = Some (Off b) -> o1 <= b < n -> k = b - o1)).
@@ -68,13 +97,41 @@ Proof. unfold paginate. cbv zeta. intros H.
       + exists (o1 + (k2 - Z.to_nat l)), (Z.to_nat l). rewrite lastn_seq by lia. repeat split; lia.
       + exists o1, k2. repeat split; lia.
     - inversion E3; subst. exists o1, k2. repeat split; lia. }
-  destruct S4 as (lo & len & -> & Hlo & Hsum). exists lo, len. split; [reflexivity|]. split; [lia|]. split.
-  - intros a E Ha. rewrite (Hafter a E Ha) in Hlo. lia.
-  - intros a b Ha E Hb Hord.
+  destruct S4 as (lo & len & -> & Hlo & Hsum).
+  split; [exists lo, len; split; [reflexivity|lia]|]. split.
+  - intros a x E Ha Hin. apply in_seq in Hin. rewrite (Hafter a E Ha) in Hlo. lia.
+  - intros b x E Hb Hin. apply in_seq in Hin.
     assert (Ho : o1 <= b).
-    { destruct Ha as [Ha|Ha].
-      - rewrite Ha in Hord. destruct (Nat.lt_ge_cases a n) as [Hlt|Hge]; [rewrite (Hafter a Ha Hlt); lia|].
-        (* an after cursor beyond the list designates nothing: o1 = 0 *)
-        lia.
-      - rewrite (Hnone Ha). lia. }
+    { (* the window is not empty: "before" lies strictly ahead of a valid "after" *)
+      destruct Hcase as [->|(a & EA & Ha & ->)]; [lia|].
+      unfold empty_window in EW. rewrite EA, E in EW.
+      rewrite find_after_seq in EW by lia. apply existsb_off_seq in EW. lia. }
     rewrite (Hbefore b E ltac:(lia)) in Hk2. lia. Qed.
+
+(* the pinned NameCon looked for "before" only in what was left after "after": when "before" was at or ahead of
+   "after" the bound was dropped, and elements past it were returned *)
+Definition paginate_pinned (n : nat) (i : input) : result :=
+  let src := seq 0 n in
+  let '(src1, hp) := match i_after i with
+                     | Some c => match find_after c src with Some o => (skipn (S o) src, true) | None => (src, false) end
+                     | None => (src, false) end in
+  let '(e1, hn) := match i_before i with Some c => take_until c src1 | None => (src1, false) end in
+  match (match i_first i with
+         | Some f => if (f <? 0)%Z then None else
+                     if Nat.ltb (Z.to_nat f) (length e1) then Some (firstn (Z.to_nat f) e1, true) else Some (e1, hn)
+         | None => Some (e1, hn) end) with
+  | None => ErrFirst
+  | Some (e2, hn2) =>
+    match (match i_last i with
+           | Some l => if (l <? 0)%Z then None else
+                       if Nat.ltb (Z.to_nat l) (length e2) then Some (lastn (Z.to_nat l) e2, true) else Some (e2, hp)
+           | None => Some (e2, hp) end) with
+    | None => ErrLast
+    | Some (e3, hp3) => Ok {| p_items := e3; p_hasnext := hn2; p_hasprev := hp3; p_total := n |}
+    end
+  end.
+
+Theorem pinned_window_refuted : exists n i p b x,
+  paginate_pinned n i = Ok p /\ i_before i = Some (Off b) /\ b < n /\ In x (p_items p) /\ b <= x.
+Proof. exists 6, {| i_after := Some (Off 1); i_before := Some (Off 0); i_first := None; i_last := None |}.
+  eexists. exists 0, 2. split; [vm_compute; reflexivity|]. cbn. repeat split; auto; lia. Qed.
